@@ -1,4 +1,4 @@
-//@@ group: slib
+//@@ group: slibx
 //@@ target: slicec/src/validators/enums.rs
 //
 // C04, enum rules on a hand-built enum: "enumerator values ... within the underlying type's range (0..2^31-1 without
